@@ -68,8 +68,8 @@ pub struct Stats {
 
 pub struct Probe<'a> {
     pub stats: &'a Stats,
-    counting: bool,
-    case_key: u64,
+    pub(crate) counting: bool,
+    pub(crate) case_key: u64,
     pub strict: bool,
 }
 
@@ -479,6 +479,111 @@ impl Run {
             "evaluations": stats.evaluations.load(Ordering::Relaxed) - before,
             "exhaustive_of": exhaustive_of, "wall_s": t0.elapsed().as_secs_f64(), "violations": n_found,
         }));
+    }
+
+    /// Coverage-guided part (thorough tier): runs a libFuzzer target built by `cargo +nightly fuzz build` in
+    /// `jobs` processes with fixed `-runs`, distinct `-seed`s and a shared fresh corpus; every artifact is handed
+    /// to `triage`, which re-checks it through the regular (CLI-confirmed) check and returns the case to store.
+    pub fn fuzz_part(&mut self, target: &str, replay_part: &str, runs_per_job: u64, jobs: usize, max_len: u32, seeds: Vec<Vec<u8>>, triage: &dyn Fn(&[u8], &Probe) -> (Verdict, Value)) {
+        if self.is_replay() {
+            return;
+        }
+        let vd = verif_dir();
+        let bin = vd.join("target/fuzz/x86_64-unknown-linux-gnu/release").join(target);
+        if !bin.exists() {
+            self.stats.parts.lock().unwrap().push(json!({"part": format!("fuzz:{target}"), "kind": "libFuzzer", "skipped": format!("fuzz target binary {} not built (cargo +nightly fuzz build failed or was not run)", bin.display())}));
+            println!("note: libFuzzer part {target} skipped: target binary not built");
+            return;
+        }
+        let t0 = Instant::now();
+        let corpus = vd.join("target/fuzz-corpus").join(format!("{}-{target}", self.prop));
+        let arts = vd.join("target/fuzz-artifacts").join(format!("{}-{target}", self.prop));
+        let _ = std::fs::remove_dir_all(&corpus);
+        let _ = std::fs::remove_dir_all(&arts);
+        std::fs::create_dir_all(&corpus).unwrap();
+        std::fs::create_dir_all(&arts).unwrap();
+        for (i, s) in seeds.iter().enumerate() {
+            let _ = std::fs::write(corpus.join(format!("seed{i:04}")), s);
+        }
+        let mut children = vec![];
+        for j in 0..jobs {
+            let mut c = std::process::Command::new(&bin);
+            c.arg(&corpus)
+                .arg(format!("-runs={runs_per_job}"))
+                .arg(format!("-seed={}", (self.seed.wrapping_add(j as u64) % 4_000_000_000).max(1)))
+                .arg(format!("-max_len={max_len}"))
+                .arg("-len_control=0")
+                .arg("-timeout=25")
+                .arg("-rss_limit_mb=4096")
+                .arg("-print_final_stats=1")
+                .arg(format!("-artifact_prefix={}/", arts.display()))
+                .env("RUST_BACKTRACE", "0")
+                .stdin(std::process::Stdio::null())
+                .stdout(std::process::Stdio::null());
+            // stderr goes to a file per job: a pipe would fill up and stall every job but the one being read
+            let log = arts.join(format!("job{j}.log"));
+            match std::fs::File::create(&log) {
+                Ok(f) => {
+                    c.stderr(f);
+                }
+                Err(_) => {
+                    c.stderr(std::process::Stdio::null());
+                }
+            }
+            if let Ok(ch) = c.spawn() {
+                children.push((ch, log));
+            }
+        }
+        let mut total_runs = 0u64;
+        let mut failed_jobs = 0;
+        for (mut ch, log) in children {
+            if let Ok(st) = ch.wait() {
+                let err = std::fs::read_to_string(&log).unwrap_or_default();
+                for l in err.lines() {
+                    if let Some(r) = l.strip_prefix("stat::number_of_executed_units:") {
+                        total_runs += r.trim().parse::<u64>().unwrap_or(0);
+                    }
+                }
+                if !st.success() {
+                    failed_jobs += 1;
+                }
+            }
+            let _ = std::fs::remove_file(&log);
+        }
+        self.stats.evaluations.fetch_add(total_runs, Ordering::Relaxed);
+        let mut n_art = 0;
+        let mut n_viol = 0;
+        if let Ok(rd) = std::fs::read_dir(&arts) {
+            let mut files: Vec<_> = rd.flatten().map(|e| e.path()).collect();
+            files.sort();
+            for f in files.into_iter().filter(|f| !f.to_string_lossy().ends_with(".log")).take(8) {
+                let Ok(bytes) = std::fs::read(&f) else { continue };
+                n_art += 1;
+                let probe = Probe { stats: &self.stats, counting: true, case_key: hash_of(&bytes), strict: false };
+                let (v, case) = triage(&bytes, &probe);
+                match v {
+                    Verdict::Fail(reason) | Verdict::FailReduced(reason, _) => {
+                        n_viol += 1;
+                        self.violations.push(Violation { part: replay_part.to_string(), reason: format!("{reason}\n(found by libFuzzer target {target}, artifact {})", f.display()), case });
+                    }
+                    Verdict::Known(id) => probe.known(id),
+                    Verdict::Unspecified(why) => {
+                        *self.stats.unspecified.lock().unwrap().entry(why.to_string()).or_insert(0) += 1;
+                    }
+                    Verdict::Pass => {
+                        // an in-process artifact that the CLI-confirmed check does not reproduce
+                        self.inconclusive(format!("libFuzzer artifact {} is not reproduced by the regular check (harness discrepancy)", f.display()));
+                    }
+                }
+            }
+        }
+        let corpus_size = std::fs::read_dir(&corpus).map(|r| r.count()).unwrap_or(0);
+        self.stats.parts.lock().unwrap().push(json!({
+            "part": format!("fuzz:{target}"), "kind": "libFuzzer (coverage-guided, semantic oracle in target)", "jobs": jobs, "runs_per_job": runs_per_job,
+            "executed_units": total_runs, "seed_corpus": seeds.len(), "final_corpus": corpus_size, "jobs_ended_abnormally": failed_jobs,
+            "artifacts": n_art, "violations": n_viol, "wall_s": t0.elapsed().as_secs_f64(),
+        }));
+        let _ = std::fs::remove_dir_all(&corpus);
     }
 
     /// Writes evidence, replay files and protocol lines; returns the process exit status.
